@@ -40,6 +40,10 @@ def run(ctx):
     ctx.guarded("R10.7", "closed", lambda: closed_enqueue(ctx, "R10.7"))
     ctx.guarded("R10.7", "hangup", lambda: hangup(ctx, "R10.7"))
     ctx.guarded("R10.7", "is_done", lambda: is_done(ctx, "R10.7"))
+    ctx.rule("R10.8", "the in-flight counter returns to 0 once every yielded request is answered (C07 R07.6: += exactly what read() returns, -= 1 per response)")
+    from .c06 import _Remap
+    from .c07 import counter
+    ctx.guarded("R10.8", "counter", lambda: counter(_Remap(ctx, "R10.8")))
 
 
 def cap(ctx):
